@@ -10,14 +10,15 @@ VARIABLES l, cur, seen
 vars == <<l, cur, seen>>
 \* abort: the backend delivers the code by exception (StdBackend::Abort / MP_RAISE_WITH_CODE) instead of
 \* SetStatus: no classification or solution reporting takes place, but the code written is still the code reported
-NoCase == [id |-> -1, code |-> 0, hasPrimal |-> FALSE, hasDual |-> FALSE, hasObj |-> FALSE, abort |-> FALSE]
+\* alt: the number of further solutions the backend reports before the final result (written to <sol:stub>N.sol)
+NoCase == [id |-> -1, code |-> 0, hasPrimal |-> FALSE, hasDual |-> FALSE, hasObj |-> FALSE, abort |-> FALSE, alt |-> 0]
 
 E == Lines[l]
 Bad(what) == PrintT(<<"BAD", ToJson([line |-> l, id |-> cur.id, code |-> cur.code, what |-> what])>>)
 Step == l' = l + 1
 
 TCase == /\ E.e = "Case" /\ Step
-         /\ cur' = [id |-> E.id, code |-> E.code, hasPrimal |-> E.hasPrimal, hasDual |-> E.hasDual, hasObj |-> E.hasObj, abort |-> E.abort]
+         /\ cur' = [id |-> E.id, code |-> E.code, hasPrimal |-> E.hasPrimal, hasDual |-> E.hasDual, hasObj |-> E.hasObj, abort |-> E.abort, alt |-> E.alt]
          /\ seen' = {}
 TClassify ==
   /\ E.e = "Classify" /\ Step /\ UNCHANGED cur /\ seen' = seen \cup {"Classify"}
@@ -44,13 +45,22 @@ TSol ==
                        [] n = "nprimal" -> E.present /\ ~cur.abort /\ E.nprimal # (IF cur.hasPrimal THEN E.nvars ELSE 0)
                        [] n = "ndual"   -> E.present /\ ~cur.abort /\ E.ndual # (IF cur.hasDual THEN E.ncons ELSE 0)}
      IN wrong = {} \/ Bad([k |-> "sol", wrong |-> wrong])
+\* the files of the further solutions: as many as reported, each readable, each with the code the backend reported
+TAlt ==
+  /\ E.e = "Alt" /\ Step /\ UNCHANGED cur /\ seen' = seen \cup {"Alt"}
+  /\ LET wrong == {n \in {"count", "readable", "code"} :
+                     CASE n = "count"    -> E.n # cur.alt
+                       [] n = "readable" -> E.unreadable # 0
+                       [] n = "code"     -> \E i \in 1..Len(E.codes) : E.codes[i] # cur.code}
+     IN wrong = {} \/ Bad([k |-> "alt", wrong |-> wrong])
 TExit ==
   /\ E.e = "Exit" /\ Step /\ UNCHANGED <<cur, seen>>
   /\ LET c == cur.code
-         wrong == {n \in {"rc", "classify", "sol", "iis", "ray", "dray"} :
+         wrong == {n \in {"rc", "classify", "sol", "iis", "ray", "dray", "alt"} :
                      CASE n = "rc"       -> ~cur.abort /\ E.rc # 0
                        [] n = "classify" -> ~cur.abort /\ "Classify" \notin seen
                        [] n = "sol"      -> "Sol" \notin seen
+                       [] n = "alt"      -> cur.alt > 0 /\ "Alt" \notin seen
                        [] n = "iis"      -> ~cur.abort /\ ("ComputeIIS" \in seen) # WantsIIS(c)
                        [] n = "ray"      -> ~cur.abort /\ ("Ray" \in seen) # WantsRay(c)
                        [] n = "dray"     -> ~cur.abort /\ ("DRay" \in seen) # WantsDRay(c)}
@@ -62,12 +72,12 @@ TTable ==
          missing == {i \in 1..Len(Ranges) : <<Ranges[i].lo, Ranges[i].hi>> \notin rows}
          extra == {r \in rows : r[1] # r[2] /\ ~\E i \in 1..Len(Ranges) : <<Ranges[i].lo, Ranges[i].hi>> = r}
      IN (missing = {} /\ extra = {}) \/ Bad([k |-> "table", missing |-> missing, extra |-> extra])
-TOther == /\ E.e \notin {"Case", "Classify", "ComputeIIS", "Ray", "DRay", "Sol", "Exit", "Table"}
+TOther == /\ E.e \notin {"Case", "Classify", "ComputeIIS", "Ray", "DRay", "Sol", "Alt", "Exit", "Table"}
           /\ Step /\ UNCHANGED <<cur, seen>>
           /\ E.e = "Meta" \/ Bad([k |-> "event", ev |-> E.e])
 
 Init == l = 1 /\ cur = NoCase /\ seen = {}
-Next == l <= Len(Lines) /\ (TCase \/ TClassify \/ TFlag \/ TSol \/ TExit \/ TTable \/ TOther)
+Next == l <= Len(Lines) /\ (TCase \/ TClassify \/ TFlag \/ TSol \/ TAlt \/ TExit \/ TTable \/ TOther)
 Spec == Init /\ [][Next]_vars
 Finished == (l = Len(Lines) + 1) => PrintT(<<"DONE", ToJson([n |-> Len(Lines)])>>)
 =============================================================================
